@@ -8,7 +8,7 @@ na={}
 if os.path.exists(f'{V}/not_applicable.json'):
     na=json.load(open(f'{V}/not_applicable.json'))
 man={"version":1,
- "setup_cmd":"cd /verif/engine && GOFLAGS=-mod=mod GOPROXY=off GOSUMDB=off GOTOOLCHAIN=local go build -o /verif/bin/gosym ./cmd/gosym",
+ "setup_cmd":"cd /verif/engine && GOFLAGS=-mod=mod GOPROXY=off GOSUMDB=off GOTOOLCHAIN=local go build -o /verif/bin/gosym ./cmd/gosym && /verif/bin/gosym selftest",
  "hooks":{"guard":"verif","enable":"none needed: harnesses are go/packages overlays (zz_verif_*.go) injected into /repo's packages at load time; nothing is written to /repo","baseline_off_cmd":"cd /repo && go test -vet=off -count=1 ./...","source_commits":[],"add_only":True},
  "engines":[{"name":"gosym","path":"/verif/engine","serves_properties":sorted(checks.keys()),"kind_free_text":"own symbolic executor for go/ssa (x/tools v0.29.0): concrete heap, symbolic scalars/bytes as SMT bit-vector/FP terms, path forking by re-execution, z3 -in per worker with cvc5/z3-new fallback, native replay of counterexamples via go test -overlay"}],
  "checks":[],"not_applicable":[],
